@@ -94,7 +94,15 @@ def _get_target_times(
     }
     evolution_times_rel.add(1.0)
     target_times_rel = evolution_times_rel | _unique_observable_times(config)
-    target_times: list[float] = sorted({t * duration for t in target_times_rel})
+    sorted_times = sorted({t * duration for t in target_times_rel})
+    # Merge times that coincide up to rounding (e.g. an evaluation time one ulp
+    # away from a multiple of dt) to avoid steps of vanishing duration.
+    tolerance = 1e-10 * duration
+    target_times: list[float] = [sorted_times[0]]
+    for t in sorted_times[1:]:
+        if t - target_times[-1] > tolerance:
+            target_times.append(t)
+    target_times[-1] = duration
     return target_times
 
 
